@@ -438,6 +438,8 @@ def _scaling(record, root):
             c["xl_extra"] = {"scf_eps": 1e-10, "es_eps": 1e-8}
         if engine == "ksa":
             c["max_rank"] = record.get("rank", 2)
+            if record.get("T_el"):
+                c["T_el"] = record["T_el"]  # hot electrons: fractional occupations, the electronic entropy enters the shadow energy
         c.update(extra or {})
         d = os.path.join(root, name)
         os.makedirs(d)
@@ -458,6 +460,10 @@ def _scaling(record, root):
             failures.append(core.fail("run-failed", f"{eng} k={record['k']} dt={dt0 / f} raised {r.get('exc')}"))
             return core.Result.make(record, failures, stats, sig=None, nontrivial=False)
         E = d["0:h5:data/thermo/Ek"] + d["0:h5:data/thermo/Ep"]
+        if record.get("skip_fs"):
+            # hot-electron families: the run starts from the zero-temperature SCF density, the first few fs are a start-up
+            # transient of the thermal occupations (not part of the dt-scaling statement)
+            E = E[int(round(record["skip_fs"] / dt0)) :]
         fl.append(float(E.max() - E.min()))
         x = d["0:h5:coordinates/values"]
         dist.append(float(np.abs(x - xref).max()))
@@ -473,11 +479,14 @@ def _scaling(record, root):
     cls = {"site": "xlesmd-upper-state"} if (eng == "xl_esmd" and int(record.get("active_state", 1)) >= 2) else {"site": "other"}
     sfx = "" if cls["site"] == "other" else "_known_finding_xlesmd_upper_state"
     stats["max"]["scaling_fluct_dev_from_4" + sfx] = max(abs(r1 - 4), abs(r2 - 4))
-    stats["max"]["scaling_dist_dev_from_4" + sfx] = max(abs(d1 - 4), abs(d2 - 4))
+    if not (record.get("T_el") and record["T_el"] > 1500):
+        stats["max"]["scaling_dist_dev_from_4" + sfx] = max(abs(d1 - 4), abs(d2 - 4))
     stats["max"]["scaling_drift_over_fluct" + sfx] = drift
     if not (lo <= r1 <= hi and lo <= r2 <= hi):
         failures.append(core.fail("shadow-energy-order", f"{tag}: shadow-energy fluctuation at dt, dt/2, dt/4 = {fl} eV (ratios {r1:.2f}, {r2:.2f}); second order means 4", classify=cls))
-    if not (lo <= d1 <= hi and lo <= d2 <= hi):
+    if record.get("T_el") and record["T_el"] > 1500:
+        stats["probes"]["hot_electron_scaling_families"] = 1  # the T_el > 0 surface is not the T = 0 Born-Oppenheimer one: energy order only
+    elif not (lo <= d1 <= hi and lo <= d2 <= hi):
         failures.append(core.fail("no-convergence-to-bomd", f"{tag}: distance to the Born-Oppenheimer trajectory at dt, dt/2, dt/4 = {dist} A (ratios {d1:.2f}, {d2:.2f}); expected 4", classify=cls))
     if drift > tol["drift_over_fluct"]:
         failures.append(core.fail("shadow-energy-drift", f"{tag}: shadow energy drifts by {drift:.2f} x its fluctuation amplitude over {S0} steps", classify=cls))
@@ -566,6 +575,9 @@ class C09(core.Check):
             for batch in ([["h2o"]] if tier == "quick" else [["h2o"], ["h2co"]]):
                 recs.append({"i": i, "layer": "scaling", "engine": eng, "k": k, "batch": batch, "rotate": rng.randrange(1 << 30), "seed": rng.randrange(1 << 20), "dt": 0.4, "steps": 40, "rank": 2})
                 i += 1
+        # hot electrons (KSA, T_el 10000 K): the reported potential must be the free energy whose gradient drives the nuclei
+        recs.append({"i": i, "layer": "scaling", "engine": "ksa", "k": 5, "batch": ["h2co"], "rotate": rm.randrange(1 << 30), "seed": rm.randrange(1 << 20), "dt": 0.4, "steps": 30, "rank": 2, "T_el": 10000, "skip_fs": 4.0})
+        i += 1
         # pinned known finding: XL-ESMD on the SECOND excited state (short family)
         recs.append({"i": i, "layer": "scaling", "engine": "xl_esmd", "k": 5, "batch": ["h2co"], "rotate": 4711, "seed": 99, "dt": 0.4, "steps": 16, "rank": 2, "active_state": 2})
         i += 1
